@@ -2,10 +2,10 @@
 package lexer
 
 import (
-	"bytes"
 	"errors"
 	"fmt"
 	"io"
+	"unicode/utf8"
 
 	"github.com/moorara/algo/grammar"
 	"github.com/moorara/algo/lexer"
@@ -14,7 +14,6 @@ import (
 
 const (
 	errorState = -1
-	bufferSize = 4096
 )
 
 const (
@@ -46,12 +45,89 @@ const (
 	COMMENT = grammar.Terminal("COMMENT") // COMMENT is the token for single-line and multi-line comments.
 )
 
-// inputBuffer is an interface for the input.Input struct.
+// inputBuffer is the interface of the reader the lexical analyzer scans.
 type inputBuffer interface {
 	Next() (rune, error)
 	Retract()
 	Lexeme() (string, lexer.Position)
 	Skip() lexer.Position
+}
+
+// source is an inputBuffer over the whole text of a specification held in memory.
+type source struct {
+	data    []byte
+	begin   int            // Offset of the first byte of the pending lexeme.
+	forward int            // Offset of the byte after the pending lexeme.
+	sizes   []int          // Sizes of the runes of the pending lexeme, for Retract.
+	pos     lexer.Position // Position of the first character of the pending lexeme (offset in characters).
+}
+
+func newSource(filename string, data []byte) *source {
+	return &source{
+		data: data,
+		pos:  lexer.Position{Filename: filename, Offset: 0, Line: 1, Column: 1},
+	}
+}
+
+// advance returns the position reached from pos after the text.
+func advance(pos lexer.Position, text []byte) lexer.Position {
+	for len(text) > 0 {
+		r, size := utf8.DecodeRune(text)
+		text = text[size:]
+		pos.Offset++
+		if r == '\n' {
+			pos.Line++
+			pos.Column = 1
+		} else {
+			pos.Column++
+		}
+	}
+
+	return pos
+}
+
+// Next returns the next character and moves behind it.
+// At the end of the input it returns io.EOF, and before bytes that are not a UTF-8 character an error, and does not move.
+func (s *source) Next() (rune, error) {
+	if s.forward >= len(s.data) {
+		return 0, io.EOF
+	}
+
+	r, size := utf8.DecodeRune(s.data[s.forward:])
+	if r == utf8.RuneError && size <= 1 {
+		return 0, &input.InputError{
+			Description: "invalid utf-8 character",
+			Pos:         advance(s.pos, s.data[s.begin:s.forward]),
+		}
+	}
+
+	s.forward += size
+	s.sizes = append(s.sizes, size)
+
+	return r, nil
+}
+
+// Retract gives the last character read back.
+func (s *source) Retract() {
+	if n := len(s.sizes); n > 0 {
+		s.forward -= s.sizes[n-1]
+		s.sizes = s.sizes[:n-1]
+	}
+}
+
+// Lexeme returns the pending lexeme with the position of its first character and starts a new one.
+func (s *source) Lexeme() (string, lexer.Position) {
+	text, pos := s.data[s.begin:s.forward], s.pos
+	s.pos = advance(s.pos, text)
+	s.begin, s.sizes = s.forward, s.sizes[:0]
+
+	return string(text), pos
+}
+
+// Skip skips over the pending lexeme and returns the position of its first character.
+func (s *source) Skip() lexer.Position {
+	_, pos := s.Lexeme()
+	return pos
 }
 
 // Lexer is a lexical analyzer for the EBNF language.
@@ -63,25 +139,19 @@ type Lexer struct {
 // New creates a new lexical analyzer for the EBNF language.
 // EBNF (Extended Backus-Naur Form) is used to define context-free grammars and their corresponding languages.
 func New(filename string, src io.Reader) (*Lexer, error) {
-	// The input reader reports the end of input one character early (as soon as the last character has been read),
-	// and retracting that character does not bring it back. It also takes any short read for the end of input,
-	// and it loads the next block a second time when a character at the end of a buffer half is retracted and read again.
-	// Terminating the source with a newline, which is skipped like any other newline,
-	// and using a buffer that holds the whole source ensures that no character of the source is ever lost.
+	// The specification is read into memory and scanned from there:
+	// every byte of it is a character of the source (a zero byte is not the end of the input),
+	// nothing depends on where buffers would end, and the cost of a token does not depend on the size of the file.
 	data, err := io.ReadAll(src)
 	if err != nil {
 		return nil, err
 	}
 
+	// The source is terminated with a newline, which is skipped like any other newline.
 	data = append(data, '\n')
 
-	in, err := input.New(filename, bytes.NewReader(data), max(bufferSize, len(data)+1))
-	if err != nil {
-		return nil, err
-	}
-
 	return &Lexer{
-		in: in,
+		in: newSource(filename, data),
 	}, nil
 }
 
@@ -92,9 +162,10 @@ func (l *Lexer) NextToken() (lexer.Token, error) {
 		// Read the next character from the input stream.
 		r, err := l.in.Next()
 		if err != nil {
-			// The input ended in the middle of a lexeme: evaluate what has been read so far,
-			// so that the last token of an input without a trailing newline is not lost.
-			if errors.Is(err, io.EOF) && curr != 0 {
+			// The input ended, or continues with bytes that are not a character, in the middle of a lexeme:
+			// evaluate what has been read so far, so that the token before that point is not lost.
+			// The next call meets the same condition again at the beginning of a lexeme and reports it.
+			if curr != 0 {
 				return l.evalToken(curr)
 			}
 
